@@ -3,7 +3,9 @@ package props
 
 import (
 	"fmt"
+	"time"
 
+	"nhooyr.io/websocket"
 	"verif/harness/fw"
 )
 
@@ -40,3 +42,14 @@ func firstDiff(a, b []byte) int {
 }
 
 var _ = fw.Held
+
+// closeNowBounded is the clean-up of a case that may have found the connection
+// broken: CloseNow, but do not wait for it longer than d.
+func closeNowBounded(c *websocket.Conn, d time.Duration) {
+	done := make(chan struct{})
+	go func() { c.CloseNow(); close(done) }()
+	select {
+	case <-done:
+	case <-time.After(d):
+	}
+}
